@@ -137,8 +137,10 @@ class Ctx:
         self.violations.append(Violation(what, replay, finding_key))
 
     # -- lean driver
-    def lean(self, lines: List[str]) -> Optional[List[str]]:
-        """Pipe protocol lines through the native driver. None if unavailable."""
+    def lean(self, lines: List[str], timeout: Optional[int] = None, soft: bool = False) -> Optional[List[str]]:
+        """Pipe protocol lines through the native driver. None if unavailable.  `soft`: a batch
+        that only CLASSIFIES already found discrepancies may give up after `timeout` seconds (None is
+        returned, the discrepancies then stay unclassified, i.e. are reported)"""
         if not self.driver_ok or not lines:
             return None if not self.driver_ok else []
         for ln in lines:
@@ -150,7 +152,7 @@ class Ctx:
             time.sleep(2)
         # a driver call that does not come back is an infrastructure failure (exit 2), never a
         # violation claim
-        tmo = int(os.environ.get('VERIF_DRIVER_TIMEOUT', '7200' if self.tier == 'thorough' else '1500'))
+        tmo = timeout or int(os.environ.get('VERIF_DRIVER_TIMEOUT', '7200' if self.tier == 'thorough' else '1500'))
         max_rss_kb = int(float(os.environ.get('VERIF_DRIVER_MAXRSS_GB', '14')) * 1024 * 1024)
         proc = subprocess.Popen([DRIVER], stdin=subprocess.PIPE, stdout=subprocess.PIPE,
                                 stderr=subprocess.PIPE, text=True)
@@ -179,6 +181,9 @@ class Ctx:
         except subprocess.TimeoutExpired:
             proc.kill()
             proc.communicate()
+            if soft:
+                self.notes.append(f'a classification batch of {len(lines)} driver lines was given up after {tmo} s')
+                return None
             raise
         if blown:
             raise MemoryError(f'native driver exceeded {max_rss_kb // (1024 * 1024)} GB resident memory '
